@@ -196,9 +196,10 @@ impl Expr {
         match self {
             Self::Number(n) => Ok(*n),
             Self::Variable(name) => {
-                let value = ctx
-                    .get(name)
-                    .expect("Variable not found. This should have been found at parse time");
+                let Some(value) = ctx.get(name) else {
+                    // A `let` inside a `while` body that never ran leaves the variable unassigned
+                    return Err(ExprErrorKind::UnassignedVariable(name.clone()).into());
+                };
                 if let crate::OutputValue::Value(n) = value {
                     Ok(n)
                 } else {
